@@ -10,7 +10,10 @@ abscissa itself), so a buffer tagged ('same', ...) may be an integer array, and
   DT2  a cast (`astype(v.dtype)`, `asarray(.., dtype=v.dtype)`) of a computed value to the dtype borrowed from caller data
        truncates it likewise.
 
-Both are necessary conditions of every property quantified over 'every finite y / every increasing x': the float domain
+  DT3  an integer power or self-product (`v**2`, `v*v`) of a value that still has the caller's element type is computed in that type and
+       wraps silently for integer input of ordinary magnitude (a rate of 4e9 bit/s squared exceeds int64).
+
+All are necessary conditions of every property quantified over 'every finite y / every increasing x': the float domain
 is entered once (dtype=float at the boundary) and never left."""
 from __future__ import annotations
 
@@ -41,6 +44,12 @@ ALWAYS_INT = {'lib:numpy.arange?', 'nz', 'lib:numpy.searchsorted', 'lib:numpy.ar
 def tag_of_dtype_arg(d) -> Optional[tuple]:
     """the element type a `dtype=` argument denotes"""
     if d is None:
+        return None
+    if isinstance(d, Term) and d.head in ('lib:numpy.result_type', 'lib:numpy.promote_types'):
+        # the common type of its arguments: floating point as soon as one of them is
+        parts = [tag_of_dtype_arg(x) for x in list(d.args) + [v for _, v in d.kwargs]]
+        if FLOAT in parts:
+            return FLOAT
         return None
     if isinstance(d, Fn):
         name = d.ref if isinstance(d.ref, str) else getattr(d.ref, 'qualname', str(d.ref))
@@ -201,6 +210,12 @@ def check_events(ctx, ev, rule: str, what: str, fi=None, only_funcs=None) -> int
             ctx.check(ok, rule, f"{what}: in-place store at {loc}: the buffer keeps the caller's element type ({tb[1]}), so only values of that same type may be "
                       f"written into it (an integer-typed input would truncate anything else)",
                       f"buffer dtype: that of {tb[1]}; value: {vt}", loc, owner.qualname if owner else '', f"dt-store:{loc}")
+        elif e.kind == 'selfpower':
+            decided += 1
+            tb = e.data['tag']
+            ctx.fail(rule, f"{what}: the power / self-product at {loc} is taken in the element type of {tb[1]}",
+                     f"for integer-typed {tb[1]} the result wraps silently (int64: |v| >= 3.04e9 for a square, int32: |v| >= 46341): the data has to enter the "
+                     f"floating-point domain before it is squared (DT3)", loc, owner.qualname if owner else '', f"dt-power:{loc}")
         elif e.kind in ('lib', 'method'):
             name = e.data.get('name')
             src = None
